@@ -281,3 +281,13 @@ def c03(ctx):
         rt_job(ctx, 'rtchecks', [H(ctx, 'C05', 'slice_h.go'), H(ctx, 'C03', 'rt_h.go')], unwind=100, deadline_s=600,
                only=['H_slice3_et1', 'H_slice3_et24', 'H_makeslice_et1', 'H_makeslice_et8', 'H_makeslice_et0', 'H_strslice', 'H_assert_flags']),
     ]
+
+
+@prop('C16', level='other', title='go:embed directive parsing')
+def c16(ctx):
+    import subprocess
+    gen = os.path.join(ctx.scratch, 'c16_embed_h.go')
+    subprocess.check_call(['python3', H(ctx, 'C16', 'gen.py'), ctx.repo, gen])
+    q = ctx.quick
+    return [tool_job(ctx, 'directive', 'internal/goembed', 'goembed', [gen], unwind=60, deadline_s=900 if q else 3000,
+                     only=['H_embed_prefix', 'H_embed_args3'] if q else ['H_embed_prefix', 'H_embed_args3', 'H_embed_args4'])]
